@@ -278,7 +278,10 @@ def compare_lean(c, answers, expect_oracle_sigs):
         else:
             cmp(label + ' bias1expansion (with origin states)', kv['bias0'], b1)
             cmp(label + ' rate0expansion (through origin states)', bytype(kv['rate0'], jt, (nv, nv)), exp0)
-            cmp(label + ' rate0escape (through origin states)', bytype(kv['esc0'], jt, (nv,)), esc0, sig='om2:rate0escape:' + tag + ':OSvstar')
+            pred = getattr(c, 'om2_esc_overcount', None)
+            known = pred is not None and np.shape(pred) == np.shape(esc0) and np.allclose(pred, esc0, rtol=0., atol=1e-9)
+            cmp(label + ' rate0escape (through origin states)', bytype(kv['esc0'], jt, (nv,)), esc0,
+                sig='om2:rate0escape:' + tag + ':OSvstar:' + ('overcount' if known else 'mismatch'))
             cmp(label + ' bias0expansion (with origin states)', bytype(kv['bias0'], jt, (nv,)), b0)
     if a_gf is None:
         pass
@@ -375,6 +378,8 @@ def _slim(c):
               'Dom1_om0', 'om2expansion', 'om2escape', 'om2bias', 'Dom2', 'om2_om0', 'om2_om0escape', 'om2_b0', 'Dom2_om0',
               'GFexpansion', 'OSfolddown', 'OSVfolddown', 'OSindices'):
         setattr(s, k, getattr(c, k))
+    from ._c25_impl import om2_escape_overcount_prediction
+    s.om2_esc_overcount = om2_escape_overcount_prediction(c)
     s.om1_jn = [None] * len(c.om1_jn); s.om2_jn = [None] * len(c.om2_jn); s.om0_jn = [None] * len(c.om0_jn)
     s.kinetic = _Slim(); s.kinetic.crys = _Slim(); s.kinetic.crys.G = [None] * len(list(c.crys.G))
     s.crys = _Slim(); s.crys.dim = c.crys.dim
